@@ -692,6 +692,7 @@ pub fn hostile(args: &[String]) {
         }
     }
     overflow_family();
+    overflowing_span_family();
     stagnation_family();
     hostile_jacobian_family();
 }
@@ -869,6 +870,43 @@ impl<'a> IVP for Overflow<'a> {
         self.calls.set(self.calls.get() + 1);
         if self.calls.get() > 3_000_000 { panic!("work budget exceeded"); }
         d[0] = match self.which { 0 => self.c, 1 => self.c * y[0], _ => self.c * x };
+    }
+}
+
+/// C04: finite end points whose difference overflows (x0 = -1e308, xend = 1e308): the span, and with it the first step, is
+/// infinite and never shrinks; whatever the right-hand side does, solve_ivp has to return (an Err or a non-success status)
+fn overflowing_span_family() {
+    let mut k = 0;
+    for method in ADAPTIVE {
+        for (x0, xend) in [(-1e308, 1e308), (1e308, -1e308), (-1.7e308, 0.5e308)] {
+            for which in [1usize, 3] {
+                for nmax in [None, Some(1000usize)] {
+                    let calls = std::cell::Cell::new(0usize);
+                    let f = SpanRhs { nan: which == 3, calls: &calls };
+                    let o = { let mut o = Options::builder().method(method).build(); o.max_steps = nmax; o };
+                    let (mut why, mut key, mut extra) = (String::new(), "", String::new());
+                    match catch_unwind(AssertUnwindSafe(|| solve_ivp(&f, x0, xend, &[1.0], o))) {
+                        Err(_) => { why = format!("solve_ivp did not return within 3,000,000 right-hand-side calls (span {:e} -> {:e} overflows, max_steps {:?})", x0, xend, nmax); key = "c04-hang-overflowing-span"; }
+                        Ok(Err(_)) => { extra = "\"status\":\"Err\",".into(); }
+                        Ok(Ok(sol)) => {
+                            extra = format!("\"status\":\"{:?}\",", sol.status);
+                            if sol.status == Status::Success && !sol.y.iter().all(|v| finite(v)) { why = "Success with non-finite states".into(); key = "c04-nonfinite-success"; }
+                        }
+                    }
+                    println!("{{\"kind\":\"hs\",\"case\":{},\"problem\":\"{}\",\"method\":\"{}\",\"x0\":{:e},\"xend\":{:e},\"branch\":\"overflowing-span\",\"finding_key\":\"{}\",{}\"ok\":{},\"why\":{:?}}}",
+                        490000 + k, if which == 3 { "y' = NaN" } else { "y' = -y" }, method_name(method), x0, xend, key, extra, why.is_empty(), why);
+                    k += 1;
+                }
+            }
+        }
+    }
+}
+struct SpanRhs<'a> { nan: bool, calls: &'a std::cell::Cell<usize> }
+impl<'a> IVP for SpanRhs<'a> {
+    fn ode(&self, _x: f64, y: &[f64], d: &mut [f64]) {
+        self.calls.set(self.calls.get() + 1);
+        if self.calls.get() > 3_000_000 { panic!("work budget exceeded"); }
+        d[0] = if self.nan { f64::NAN } else { -y[0] };
     }
 }
 
